@@ -1,4 +1,6 @@
-"""Model of the bitarray.util functions that bitstring calls (big-endian only)."""
+"""Model of the bitarray.util functions that bitstring calls.  Little-endian bitarrays (item 0 = least significant bit of a byte /
+of an integer / of a digit) are supported for the conversions in this module; the result of int2ba/base2ba/zeros/ones is big-endian
+unless endian='little' is asked for."""
 from __future__ import annotations
 
 from . import _core as C
@@ -11,8 +13,9 @@ _WS = ' \t\n\r\v\f'
 def int2ba(i, /, length=None, endian=None, signed=False):
     if not isinstance(i, int):
         raise TypeError(f"'{type(i).__name__}' object cannot be interpreted as an integer")
-    if endian not in (None, 'big'):
-        raise NotImplementedError("sbx model: only big-endian bitarrays are modelled")
+    if endian not in (None, 'big', 'little'):
+        raise ValueError(f"bit-endianness must be either 'little' or 'big', not '{endian}'")
+    le = endian == 'little'
     if length is None:
         if signed:
             raise TypeError("signed requires argument 'length'")
@@ -20,7 +23,7 @@ def int2ba(i, /, length=None, endian=None, signed=False):
         if i < 0:
             raise OverflowError("unsigned integer not positive, got %d" % i)
         n = max(i.bit_length(), 1)
-        return bitarray._mk(n, i)
+        return bitarray._mk(n, C.reverse(i, n) if le else i, le)
     if not isinstance(length, int):
         raise TypeError("integer expected for argument 'length'")
     n = _conc(length)
@@ -34,7 +37,8 @@ def int2ba(i, /, length=None, endian=None, signed=False):
         if i < 0 or i >= (1 << n):
             raise OverflowError(f"unsigned integer not in range(0, {1 << n})")
     with NoTracing():
-        return bitarray._mk(n, C.from_int(C.ival(i), n, bool(signed)))
+        v = C.from_int(C.ival(i), n, bool(signed))
+        return bitarray._mk(n, C.reverse(v, n) if le else v, le)
 
 
 def ba2int(a, /, signed=False):
@@ -43,7 +47,8 @@ def ba2int(a, /, signed=False):
     if a._n == 0:
         raise ValueError("non-empty bitarray expected")
     with NoTracing():
-        r = C.to_sint(a._v, a._n) if signed else C.to_uint(a._v, a._n)
+        v = C.reverse(a._v, a._n) if a._le else a._v       # little-endian: item 0 is the least significant bit
+        r = C.to_sint(v, a._n) if signed else C.to_uint(v, a._n)
         return C.wrap_int(r)
 
 
@@ -70,6 +75,8 @@ def base2ba(n, s, /, endian=None):
         raise ValueError("base must be 2, 4, 8, 16, 32 or 64")
     if n > 16:
         raise NotImplementedError("sbx model: base 32/64 are not modelled")
+    if endian == 'little':
+        raise NotImplementedError("sbx model: base2ba/hex2ba with endian='little' is not modelled")
     if isinstance(s, (bytes, bytearray)):
         s = s.decode('latin-1')
     elif not isinstance(s, str):
@@ -118,12 +125,16 @@ def ba2base(n, a, /, group=0, sep=' '):
         raise ValueError(f"bitarray length {a._n} not multiple of {w}")
     k = a._n // w
     with NoTracing():
-        if not C.is_bv(a._v):
-            return ''.join(_DIGITS[(a._v >> (w * (k - 1 - j))) & (n - 1)] for j in range(k))
+        av = a._v
+        if a._le and a._n:
+            # little-endian: the bits of every digit are in the opposite order
+            av = C.cat([(w, C.reverse(C.take(a._v, a._n, w * j, w), w)) for j in range(k)])[1]
+        if not C.is_bv(av):
+            return ''.join(_DIGITS[(av >> (w * (k - 1 - j))) & (n - 1)] for j in range(k))
         z3 = C.z3
         cps = []
         for j in range(k):
-            d = z3.BV2Int(z3.Extract(a._n - 1 - w * j, a._n - w - w * j, a._v))
+            d = z3.BV2Int(z3.Extract(a._n - 1 - w * j, a._n - w - w * j, av))
             cps.append(C.SymbolicInt(z3.If(d < 10, d + 48, d + 87)))
         return C.LazyIntSymbolicStr(cps)
 
@@ -133,9 +144,9 @@ def ba2hex(a, /, group=0, sep=' '):
 
 
 def zeros(n, endian=None):
-    return bitarray._mk(_conc(n), 0)
+    return bitarray._mk(_conc(n), 0, endian == 'little')
 
 
 def ones(n, endian=None):
     n = _conc(n)
-    return bitarray._mk(n, C.mask(n))
+    return bitarray._mk(n, C.mask(n), endian == 'little')
